@@ -171,6 +171,9 @@ func tryEvalCheck(r *rep.Run, kleene bool) {
 						continue
 					}
 					asg := idx
+					if idx%512 == 0 {
+						r.Note(w, p.Src) // progress within one program
+					}
 					decode(idx, vals)
 					copy(c.f.Vals, vals)
 					c.f.Avail = avail
